@@ -1,7 +1,7 @@
 ----------------------------- MODULE FF_Gq -----------------------------
-(* quick instance G: all connected residue graphs on 1..4 residues x kinds over {A, B, XX-pairs} x first residue id {1, 5} x 3 force fields *)
+(* quick instance G: all connected residue graphs on 1..4 residues x kinds over {A, B, XX-pairs} x first residue id {1, 5} x 2 force fields *)
 EXTENDS FFExport
 MCFFs == FFsG
-MCInputs == InputsG({1, 2, 3}, 1..4)
+MCInputs == InputsG({2, 3}, 1..4)
 ASSUME PrintT(<<"FFS", ToJson(MCFFs)>>)
 =============================================================================
